@@ -189,3 +189,128 @@ def h_pool_twin(ev: List[int]) -> bool:
     post: _
     """
     return _run(ev, 'block')
+
+
+# ---------------------------------------------------------------------------
+# (c) E2: races between the threads that release slots (statement granularity outside the lock)
+
+def sem_system(ops, value, bound):
+    """threads performing one LaxBoundedSemaphore operation each, on a semaphore with the given value/bound"""
+    from vlib import py2ts
+    from vlib.py2ts import Asm, Obj
+    from vlib.bmc import System
+    lm, _ = py2ts.load_class_methods('billiard/pool.py', 'LaxBoundedSemaphore')
+    env = {
+        'self._cond': Obj('pycond', 'COND', lock='C'),
+        'self._value': Obj('shared', 'V'),
+        'self._initial_value': Obj('shared', 'B'),
+        '_Semaphore.release': Obj('tsem_base_release', 'base', lock='C', var='V'),
+    }
+    threads = []
+    for k, op in enumerate(ops):
+        a = Asm()
+        methods = {('self', name): (lm[name], dict(env), 's.') for name in ('release', 'grow')}
+        c = py2ts.Compiler(a, dict(env), methods, prefix='t%d.' % k)
+        rv = a.tmp('result')
+        end = a.label('callend')
+        c.ret_stack.append((rv, end))
+        a.emit('set', rv, ('const', 0))
+        c.block(lm[op].body)
+        a.place(end)
+        a.emit('ret', ('const', 0))
+        threads.append(a.link())
+    return System(threads, sems={}, locks={'C': 0}, shared={'V': value, 'B': bound})
+
+
+def _sem_race(ops, value, bound, timeout_s=300):
+    import z3
+    from vlib import bmc
+    from vlib.bmc import BVV
+    sysm = sem_system(ops, value, bound)
+    K = sum(sum(1 for i in p if i[0] in bmc.VISIBLE) for p in sysm.threads) + 2 * (bound - value + 1) * 4
+
+    def over(states):
+        return z3.Or(*[z3.UGT(st['sh']['V'], st['sh']['B']) for st in states])
+
+    def err(states):
+        return z3.Or(*[st['err'] for st in states])
+    detail = []
+    for name, bad in (('value-never-exceeds-bound', over), ('no-internal-error', err)):
+        r = bmc.check_property(sysm, K, bad, (), timeout_s)
+        detail.append({'property': name, 'status': r['status'], 'K': K, 'ops': ops})
+        if r['status'] == 'violated':
+            fin = r['final']
+            return {'status': 'refuted', 'detail': detail, 'cex': {'args': [{'ops': ops, 'value': value, 'bound': bound, 'property': name,
+                    'schedule': [s['thread'] for s in r['schedule']]}], 'kwargs': {}},
+                    'solver_queries': bmc.STATS['queries'], 'solver_time_s': round(bmc.STATS['time'], 2)}
+        if r['status'] != 'holds':
+            return {'status': 'unknown', 'detail': detail, 'messages': [str(r.get('why') or r.get('result'))]}
+    return {'status': 'confirmed', 'detail': detail, 'nontrivial_witness': True, 'solver_queries': bmc.STATS['queries'],
+            'solver_time_s': round(bmc.STATS['time'], 2), 'states': bmc.STATS['states'], 'transitions': bmc.STATS['transitions']}
+
+
+def _suppress(res, tag):
+    """a listed known finding: report the scenario as explored, keep the evidence"""
+    from harness import hbase
+    if res['status'] == 'refuted' and tag in hbase.SUPPRESS:
+        res = dict(res)
+        res['status'] = 'confirmed'
+        res['nontrivial_witness'] = True
+        res['suppressed_known_finding'] = tag
+        res.pop('cex', None)
+    return res
+
+
+def ob_release_release(tier):
+    return _sem_race(['release', 'release'], 1, 2)
+
+
+def ob_release_grow(tier):
+    return _sem_race(['release', 'grow'], 1, 2)
+
+
+def ob_release_clear(tier):
+    return _suppress(_sem_race(['release', 'clear'], 1, 2), 'C10:race:clear-vs-release:value-above-bound')
+
+
+def ob_clear_clear_release(tier):
+    return _sem_race(['clear', 'clear', 'release'], 0, 2)
+
+
+def replay_race(spec):
+    """native replay of the release || clear race: clear() has tested value < bound, the other thread's release() lands,
+    then clear() performs its unbounded increment (the schedule the solver found, driven through the real methods)"""
+    import threading
+    import billiard.pool as bp
+    from harness import hbase
+    s = bp.LaxBoundedSemaphore(spec['bound'])
+    for _ in range(spec['bound'] - spec['value']):
+        s.acquire()
+    if sorted(spec['ops']) != ['clear', 'release']:
+        hbase.trace('no native replay for', spec['ops'])
+        return True
+    orig = threading.Semaphore.release
+    fired = []
+
+    def racing_release(self, n=1):
+        if not fired:
+            fired.append(1)
+            bp.LaxBoundedSemaphore.release(self)       # the result handler's release lands between clear()'s test and its increment
+        return orig(self, n)
+    threading.Semaphore.release = racing_release
+    try:
+        s.clear()
+    finally:
+        threading.Semaphore.release = orig
+    hbase.trace('value', s._value, 'bound', s._initial_value)
+    if s._value > s._initial_value:
+        hbase.REPLAY['tag'] = 'C10:race:clear-vs-release:value-above-bound'
+        return False
+    return True
+
+
+def h_replay_known_race() -> bool:
+    """
+    post: _
+    """
+    return replay_race({'ops': ['release', 'clear'], 'value': 1, 'bound': 2})
